@@ -51,9 +51,31 @@ fn run(ctx: &RunCtx) -> Report {
     // nodes currently cut off from everybody by a partition
     // (a multiset: a partition and a suspension of one node may overlap)
     let isolated: Rc<RefCell<BTreeMap<HostId, u32>>> = Default::default();
+    // exact log of full buckets, written after every step that consumed a datagram:
+    // (host, bucket) -> [(from, until, members)] (the 30 s sampling below misses a bucket that is full
+    // for a few seconds only - a false alarm of an earlier version)
+    type FullLog = BTreeMap<(HostId, u8), Vec<(u64, u64, BTreeSet<SocketAddrV4>)>>;
+    let full_log: Rc<RefCell<FullLog>> = Default::default();
     {
         let (es, we, tau, hub_alive, isolated) = (empty_since.clone(), worst_empty.clone(), tau.clone(), hub_alive.clone(), isolated.clone());
+        let full_log = full_log.clone();
         sim.set_observer(Box::new(move |h, now, s| {
+            for (k, b) in &s.routing_table.buckets {
+                if b.len() >= 20 {
+                    let members: BTreeSet<SocketAddrV4> = b.iter().map(|n| n.address).collect();
+                    let mut fl = full_log.borrow_mut();
+                    let e = fl.entry((h, *k)).or_default();
+                    match e.last_mut() {
+                        Some(last) if last.2 == members => last.1 = now,
+                        _ => {
+                            e.push((now, now, members));
+                            if e.len() > 400 {
+                                e.remove(0);
+                            }
+                        }
+                    }
+                }
+            }
             let mut t = tau.borrow_mut();
             *t = (*t).max(s.socket.request_timeout_ns);
             let mut es = es.borrow_mut();
@@ -360,6 +382,12 @@ fn run(ctx: &RunCtx) -> Report {
                 // (and the peer was not one of its members: a member of a full bucket is refreshed)
                 if bucket_hist.get(&(*x, d)).map(|h| h.iter().any(|(ht, n, members)| *ht + 60 * SEC >= *at && *ht <= *at + 60 * SEC && *n >= 20 && !members.contains(paddr))).unwrap_or(false) {
                     capacity_limited += 1;
+                    continue;
+                }
+                // same, from the exact log: full without the peer in the step that consumed the answer
+                if full_log.borrow().get(&(*x, d)).map(|h| h.iter().any(|(from, until, members)| *from <= *at + SEC && *until + SEC >= *at && !members.contains(paddr))).unwrap_or(false) {
+                    capacity_limited += 1;
+                    report.probe("capacity_limited_by_exact_log", 1);
                     continue;
                 }
                 // the node re-keyed after the answer (its table was rebuilt under a new id)
